@@ -750,9 +750,11 @@ def store_mc(w):
 
 def persist_kinds(w, q):
     if q:
-        return [("psA", dict(traces=3, n=0, steps=200, cache=60)), ("psB", dict(traces=3, n=0, steps=220, cache=90)),
+        return [("psA", dict(traces=3, n=0, steps=200, cache=70)), ("psB", dict(traces=3, n=0, steps=220, cache=90)),
                 ("psC", dict(traces=2, n=3, steps=240, cache=150))]
-    return [("ps%d" % i, dict(traces=6, n=0, steps=260 + 20 * i, cache=[40, 60, 90, 150, 250, 30][i % 6])) for i in range(8)] + \
+    # (rounds and frames live in the cache only - Store.GetRound never reads the database -
+    # so the cache must hold every round of the run: 90 entries and up for these lengths)
+    return [("ps%d" % i, dict(traces=6, n=0, steps=260 + 20 * i, cache=[90, 100, 120, 150, 250, 400][i % 6])) for i in range(8)] + \
            [("psN4", dict(traces=4, n=4, steps=320, cache=200)), ("psN5", dict(traces=3, n=5, steps=300, cache=300))]
 
 
